@@ -599,6 +599,7 @@ func (filter *TrzszFilter) uploadDragFiles() {
 	_ = writeAll(filter.serverIn, []byte(command+"\r"))
 	time.Sleep(3 * time.Second)
 	filter.resetDragFiles()
+	filter.skipUploadCommand.Store(false) // no echo of the command came: later output must not be taken for it
 }
 
 var tmuxInputRegexp = regexp.MustCompile(`send -(l?)t %\d+ (.*?)[;\r]`)
